@@ -613,24 +613,25 @@ func AddAccess(a Access, observe func() string) {
 }
 
 // FlushAccesses parks the thread with the accumulated accesses as its pending operation.
-func FlushAccesses(label string) {
+func FlushAccesses(label string) (parked bool) {
 	s := active.Load()
 	if s == nil {
-		return
+		return false
 	}
 	t := Current()
 	if t == nil {
-		return
+		return false
 	}
 	acc, obs := t.acc, t.accObs
 	t.acc, t.accObs = nil, nil
 	if len(acc) == 0 {
-		return
+		return false
 	}
 	s.park(t, label, acc)
 	for _, f := range obs {
 		Observe(f())
 	}
+	return true
 }
 
 // Observe folds v into the calling thread's observation hash (state-key pruning).
